@@ -6,7 +6,7 @@
    [rc] = the re-check after parking (repair of F01) is in place. *)
 From Coq Require Import List Arith.
 Import ListNotations.
-From Onet Require Import Overlay.Delivery Overlay.DeliveryProofs.
+From Onet Require Import Overlay.Delivery Overlay.DeliveryProofs Node.SendApi Node.SendApiProofs.
 
 (* every message ever sent to the server is in exactly one place: in transit, held
    by one goroutine, parked, handed to its instance, or dropped (instance done) *)
@@ -61,3 +61,28 @@ Example c01_complete_example :
             quiescent s = true /\ In w1 (sent s) /\ ~ In (mtok w1) (finished s).
 Proof. exact complete_example. Qed.
 Print Assumptions c01_complete_example.
+
+(* the group send calls (treenode.go Broadcast / SendToChildren / SendToParent; Multicast sends to
+   the listed nodes): who the message is for, as a function of the caller's position in the
+   generated N-ary tree. Broadcast: every node of the tree except the caller, each once. *)
+Theorem c01_broadcast_reaches_all_but_caller : forall N n me k,
+  In k (dests N n me HBroadcast) <-> k < n /\ k <> me.
+Proof. exact broadcast_spec. Qed.
+Print Assumptions c01_broadcast_reaches_all_but_caller.
+
+Theorem c01_broadcast_each_once : forall N n me,
+  NoDup (dests N n me HBroadcast) /\ (me < n -> length (dests N n me HBroadcast) = n - 1).
+Proof. intros N n me; split; [apply broadcast_nodup | apply broadcast_length]. Qed.
+Print Assumptions c01_broadcast_each_once.
+
+(* SendToChildren: exactly the nodes whose parent is the caller *)
+Theorem c01_children_are_those_with_this_parent : forall N n k c, 1 <= N ->
+  In c (children_of N n k) <-> c < n /\ parent_of N c = Some k.
+Proof. exact children_spec. Qed.
+Print Assumptions c01_children_are_those_with_this_parent.
+
+Theorem c01_send_api_example :
+  dests 2 5 1 HBroadcast = [0; 2; 3; 4] /\ dests 2 5 1 HChildren = [3; 4] /\
+  dests 2 5 1 HParent = [0] /\ dests 2 5 2 HChildren = [] /\ dests 2 5 0 HParent = [].
+Proof. exact dests_example. Qed.
+Print Assumptions c01_send_api_example.
